@@ -17,6 +17,8 @@ Open Scope list_scope.
 Open Scope Z_scope.
 
 Definition P (a r : Z) (o : bool) : party := {| p_addr := a; p_role := r; p_opt := o |}.
+Definition SV (spec : Z) (owners : list party) (data : list Z) (vo : option Z) (rollup : bool) : scope_view :=
+  {| sv_spec := spec; sv_owners := owners; sv_data := data; sv_vo := vo; sv_rollup := rollup |}.
 
 Inductive case :=
   (* keeper.ValidateSignersWithParties called directly; [m] = kind of the message carrying the
